@@ -897,6 +897,22 @@ fn main() {
             }
             println!("ok bounding rect");
         }
+        "raw_line_intersection" => {
+            use geo::line_intersection::{line_intersection, LineIntersection};
+            let l = |a: (f64, f64), b: (f64, f64)| Line::new(coord! {x: a.0, y: a.1}, coord! {x: b.0, y: b.1});
+            for (p, q, want) in [(l((0.0, 0.0), (4.0, 4.0)), l((0.0, 4.0), (4.0, 0.0)), (2.0, 2.0)),
+                                 (l((0.0, 0.0), (10.0, 0.0)), l((3.0, -1.0), (3.0, 5.0)), (3.0, 0.0)),
+                                 (l((0.0, 2.0), (4.0, 4.0)), l((1.0, 5.0), (3.0, 1.0)), (2.0, 3.0)),
+                                 (l((-7.0, -3.0), (9.0, 5.0)), l((5.0, -9.0), (-3.0, 7.0)), (0.2, 0.6))] {
+                for (a, b) in [(p, q), (q, p)] {
+                    match line_intersection(a, b) {
+                        Some(LineIntersection::SinglePoint { intersection, is_proper: true }) if (intersection.x - want.0).abs() < 1e-9 && (intersection.y - want.1).abs() < 1e-9 => {}
+                        other => fail(format!("{:?} x {:?}: {:?}, expected a proper crossing at {:?}", a, b, other, want)),
+                    }
+                }
+            }
+            println!("ok raw line intersection");
+        }
         _ => {
             eprintln!("unknown op {op}");
             std::process::exit(4);
